@@ -11,7 +11,7 @@ RULE = ("raster = exclusion/other-zone background + a bounding box whose four si
         "touches every subset of the four raster borders (16 subsets enumerated per case group); shapes 1xN, Nx1 .. 10x10; "
         "int and float dtypes; exclusion sets: default, (nan,), [nan,0.], [0], (0,1), lists and tuples; "
         "non-trivial = distinct (shape, box, dtype, exclusion set, data hash) where the window is a strict sub-window")
-BUDGET = {'quick': 60, 'thorough': 700}
+BUDGET = {'quick': 120, 'thorough': 700}
 FLOORS = {'quick': {'trim.window': 232, 'crop.window': 245, 'trim.nan_excluded': 50, 'border_subsets_16': 1},
           'thorough': {'trim.window': 3000, 'crop.window': 3000}}
 EXHAUSTIVE = {'quick': ['all 16 subsets of touched borders for each generated (shape, exclusion set) group'],
